@@ -24,13 +24,24 @@ Definition big_int (v : gval) : bool :=
 Definition has_big_int (c : ecase) : bool :=
   existsb (fun da => existsb (fun cj : conj => existsb (fun fe => existsb (fun e => big_int (e_val e)) (snd fe)) cj) (d_conjs (fst da))) (k_docs c).
 
+(* a json.Number whose text is not a plain integer literal (fraction or exponent) *)
+Definition frac_json (v : gval) : bool :=
+  let fr := fun x => match x with VJson s => existsb (fun b => (b =? 46)%N || (b =? 101)%N || (b =? 69)%N) s | _ => false end in
+  match v with
+  | VSlice _ _ vs | VList _ vs | VArr _ vs => existsb fr vs
+  | _ => fr v
+  end.
+Definition has_frac_json (c : ecase) : bool :=
+  existsb (fun da => existsb (fun cj : conj => existsb (fun fe => existsb (fun e => frac_json (e_val e)) (snd fe)) cj) (d_conjs (fst da))) (k_docs c).
+
 (* signatures: 41 a decoded document is accepted/rejected differently, 42 answers differ,
-   43 answers differ and the document holds an integer beyond 2^53 (float64 precision) *)
+   43 answers differ and the document holds an integer beyond 2^53 (float64 precision),
+   44 answers differ and the document holds a json.Number with a fraction or an exponent *)
 Definition spec_verdict_j (j : jcase) : bool * bool * N :=
   let '(o, d) := j in
   let '(ok_o, dom_o, sig_o) := SpecE2E.spec_verdict o in
   if negb ok_o then (false, dom_o, sig_o) else
-  let sigd := if has_big_int o then 43%N else 42%N in
+  let sigd := if has_big_int o then 43%N else if has_frac_json o then 44%N else 42%N in
   if negb (eqb_list iadd_eqb (map snd (k_docs o)) (map snd (k_docs d))) then (false, dom_o, if has_big_int o then 43%N else 41%N)
   else if negb (eqb_list ires_same (map snd (k_queries o)) (map snd (k_queries d))) then (false, dom_o, sigd)
   else (true, dom_o, 0%N).
